@@ -7,6 +7,7 @@ recorded choice log; outputs are compared row by row.  Oracles (implementation o
 sub-multiset for smoothers, observed part unchanged, hold-out partition / counts / masks.
 """
 from harness import prep_common as P
+from harness import prep_pipeline as PP
 
 RULE = ("per operation (3 generators, 6 smoothers, initial plate, combination filter, 2 hold-outs): random screens with duplicate "
         "conditions, single-agent rows (control by name and by dose), vehicle-only rows (EVERY treatment is the control), arity 1-3, "
@@ -26,12 +27,19 @@ RULE = ("per operation (3 generators, 6 smoothers, initial plate, combination fi
         "control, pairwise single-agent samples that are not a sorted prefix of the combination samples; array attributes of results "
         "enumerated by introspection (+ ids one-to-one with names); 5 cases per operation repeated in another interpreter with another "
         "PYTHONHASHSEED; generator seed 0, one-row screens, parameters 0/1, sample id 0 dropped; rows shuffled (observed rows before / between "
-        "unobserved ones, plates and samples interleaved); >= 11 and >= 101 generated plates.")
+        "unobserved ones, plates and samples interleaved); >= 11 and >= 101 generated plates."
+        " PIPELINE stream (op `pipeline`, evidence `pipeline.*`): the real cli/prepare_retrospective_simulation.main() on small saved screens, "
+        "36 option combinations per quick run (all generator x smoother pairs, 8 targeted initial-generator combinations; all 3x4x7 in the thorough "
+        "tier), one recording generator injected through get_prng_from_seed_argument, stage markers around the initial generator / generator / "
+        "smoother / hold-out, outputs read with h5py and compared with Model/PrepPipeline.lean; end-to-end oracles on the files (conservation vs a "
+        "reference combination filter, test fully observed + per-plate counts, shared mappings, initial plate covers, single-sample unobserved plates).")
 
 
 def run(ctx, res):
-    P.run_property(ctx, res, "C11", P.oracles_c11, RULE)
+    P.run_property(ctx, res, "C11", P.oracles_c11, RULE, extra_stream=PP.run_stream)
 
 
 def replay(ctx, case, res):
+    if case.get("op") == "pipeline":
+        return PP.replay(ctx, case, res, "C11")
     P.replay_property(ctx, case, res, P.oracles_c11, "C11")
